@@ -26,19 +26,23 @@ type TierSpec struct {
 }
 
 type HarnessSpec struct {
-	Name        string            `json:"name"`
-	Pkg         string            `json:"pkg"`   // import path
-	Entry       string            `json:"entry"` // function name
-	Files       []string          `json:"files"` // relative to /verif/harness
-	Kind        string            `json:"kind"`  // api | state
-	Quick       *TierSpec         `json:"quick"`
-	Thorough    *TierSpec         `json:"thorough"`
-	Redirects   map[string]string `json:"redirects"`
-	EngineOnly  bool              `json:"engine_only"`
-	Bounds      string            `json:"bounds"`
-	Assumptions []string          `json:"assumptions"`
-	Witness     bool              `json:"witness"` // vacuity twin: its final Assert(false) must be violated
-	Hang        bool              `json:"hang_is_violation"`
+	Name      string            `json:"name"`
+	Pkg       string            `json:"pkg"`   // import path
+	Entry     string            `json:"entry"` // function name
+	Files     []string          `json:"files"` // relative to /verif/harness
+	Kind      string            `json:"kind"`  // api | state
+	Quick     *TierSpec         `json:"quick"`
+	Thorough  *TierSpec         `json:"thorough"`
+	Redirects map[string]string `json:"redirects"`
+	// Requires: functions of the code under test (same spelling as redirect sources) that
+	// the harness's stubs stand in for; if one is gone the harness is skipped, not run
+	// against code its model no longer matches.
+	Requires    []string `json:"requires"`
+	EngineOnly  bool     `json:"engine_only"`
+	Bounds      string   `json:"bounds"`
+	Assumptions []string `json:"assumptions"`
+	Witness     bool     `json:"witness"` // vacuity twin: its final Assert(false) must be violated
+	Hang        bool     `json:"hang_is_violation"`
 	// NativeRewrite: for native replays only, regular-expression rewrites applied to the
 	// non-test sources of the harness package (through the go test overlay), so that calls
 	// the engine redirects also reach the harness's injection points natively.
@@ -444,6 +448,13 @@ func cmdRun(args []string) int {
 			if err := pg.Redirect(from, to[:i], to[i+1:]); err != nil {
 				fmt.Printf("SKIPPED-HARNESS %s: %v\n", h.Name, err)
 				hr.Skipped = err.Error()
+				bad = true
+			}
+		}
+		for _, need := range h.Requires {
+			if !pg.HasFunction(need) {
+				fmt.Printf("SKIPPED-HARNESS %s: %s, which the harness replaces by a stub, no longer exists\n", h.Name, need)
+				hr.Skipped = "required function missing: " + need
 				bad = true
 			}
 		}
